@@ -654,7 +654,8 @@ def expand_block(b, overlay, unit_breaks, backend="verus"):
         if "as" in words:
             opts["as"] = words[words.index("as") + 1]
         name = opts.get("as", path.split("::")[-1])
-        ex = Extracted(path, relfile, raw, hashlib.sha256(raw.encode()).hexdigest()[:16], "fn")
+        shown = path if "as" not in opts else ("::".join(path.split("::")[:-1] + [name]))
+        ex = Extracted(shown, relfile, raw, hashlib.sha256(raw.encode()).hexdigest()[:16], "fn")
         text, dropped = rustlex.strip_prefix(raw)
         ex.dropped = [x for x in dropped if not x.startswith("//")]
         for d in b.subs:
@@ -682,7 +683,7 @@ def expand_block(b, overlay, unit_breaks, backend="verus"):
         chunks = []
         if has_loops and backend == "verus":
             chunks.append(Chunk("#[verifier::exec_allows_no_decreases_clause]\n", {"t": "template"}))
-        idbase = path
+        idbase = shown
         chunks += process_fn_like(ex, sig, body, b.subs, idbase)
         can = make_canary(ex, sig, b.subs, idbase)
         if can:
